@@ -12,6 +12,7 @@
 #include "common/jmodel.h"
 #include "common/sonic_util.h"
 #include "common/vf.h"
+#include "sonic/experiment/lazy_update.h"
 
 using jm::JVal;
 using namespace sonic_json;
@@ -797,6 +798,68 @@ static void c13_history(vf::Rng& r) {
   su::ledger_reset();
 }
 
+// lazy parse / lazy merge on the ledger allocator: raw nodes, keys decoded into allocator memory, source destroyed
+// before the merged target is read
+static vf::Counter c13_lazy("lazy-merge-on-ledger-allocator"), c13_lazy_esc("lazy-merge:escaped-keys");
+static void c13_lazy_case(vf::Rng& r) {
+  su::ledger_reset();
+  std::string ttext, stext, expect, got;
+  {
+    // small objects; keys with and without escapes, in varying order; new keys contributed by the source
+    auto gen_obj = [&](const char* tag, bool src) {
+      std::string t = "{";
+      size_t n = r.range(0, 5);
+      for (size_t i = 0; i < n; i++) {
+        if (i) t += ",";
+        std::string k;
+        switch (r.below(4)) {
+          case 0: k = "a\\n" + std::to_string(i); break;            // escaped spelling
+          case 1: k = "q\\u0041" + std::to_string(i); break;
+          default: k = std::string(src && r.coin() ? "new" : "k") + std::to_string(i); break;
+        }
+        t += "\"" + k + "\":";
+        if (r.below(3) == 0) t += std::string("{\"x") + tag + "\":" + std::to_string(i) + ",\"e\\t\":[" + std::to_string(i) + "]}";
+        else t += r.coin() ? std::to_string(r.below(100)) : "\"v" + std::to_string(i) + "\"";
+      }
+      return t + "}";
+    };
+    ttext = gen_obj("t", false);
+    stext = gen_obj("s", true);
+    if (ttext.find('\\') != std::string::npos || stext.find('\\') != std::string::npos) c13_lazy_esc.add();
+    c13_lazy.add();
+    vf::eval();
+    std::string w = ttext + " <== " + stext;
+    vf::witness(w);
+    vf::distinct(vf::hash_str(w));
+    expect = UpdateLazy(StringView(ttext.data(), ttext.size()), StringView(stext.data(), stext.size()));  // pool allocator reference
+    su::TrackAlloc alloc;
+    su::TrackNode target;
+    {
+      su::TrackNode source;
+      vf::note("ParseLazy+UpdateNodeLazy(ledger allocator)");
+      ParseResult r1 = internal::ParseLazy(target, StringView(ttext.data(), ttext.size()), alloc);
+      ParseResult r2 = internal::ParseLazy(source, StringView(stext.data(), stext.size()), alloc);
+      if (r1.Error() || r2.Error()) {
+        vf::violation("lazy-parse-error-on-valid-text", ttext + " / " + stext);
+        return;
+      }
+      SonicError e = internal::UpdateNodeLazy(target, source, alloc);
+      if (e) {
+        vf::violation("lazy-merge-error", std::to_string((int)e));
+        return;
+      }
+    }  // source gone: the target must own everything it refers to (or refer to the caller's texts only)
+    WriteBuffer wb;
+    vf::note("Serialize(merged target after the source was destroyed)");
+    if (target.Serialize(wb) == kErrorNone) got = std::string(wb.ToString(), wb.Size());
+    if (su::ledger_errors()) vf::violation("ledger-bad-free:lazy-merge", su::ledger().last_error + " texts: " + w);
+  }
+  if (got != expect) vf::violation("lazy-merge-on-ledger-differs-from-pool", "ledger: " + vf::printable(got, 200) + " pool: " + vf::printable(expect, 200) + " texts: " + ttext + " <== " + stext);
+  if (su::ledger_errors()) vf::violation("ledger-bad-free:lazy-merge", su::ledger().last_error);
+  if (su::ledger_live()) vf::violation("ledger-leak:lazy-merge", std::to_string(su::ledger_live()) + " blocks after the lazily merged nodes were destroyed; texts: " + ttext + " <== " + stext);
+  su::ledger_reset();
+}
+
 // ------------------------------------------------------------------ C18
 static vf::Counter c18_pairs("pairs-compared"), c18_eq("pairs:model-equal"), c18_ne("pairs:model-different"), c18_tri("triples(transitivity)"), c18_perm("variant:member-permuted"),
     c18_kind("variant:number-kind-changed"), c18_cross("pairs:across-allocator-types"), c18_moved_null("history:null-from-moved-from-node"), c18_alias("history:const-strings-sharing-an-address"),
@@ -1065,6 +1128,7 @@ int main(int argc, char** argv) {
     S.push_back({"histories_malloc", 12000, 400000, [trim_pool](uint64_t, vf::Rng& r) { c12_history<su::SimpleDoc>(r, "malloc"); trim_pool(); }});
   } else if (g_prop == "C13") {
     S.push_back({"histories_ledger", 20000, 600000, [trim_pool](uint64_t, vf::Rng& r) { c13_history(r); trim_pool(); }});
+    S.push_back({"lazy_merge_ledger", 20000, 600000, [](uint64_t, vf::Rng& r) { c13_lazy_case(r); }});
   } else {
     S.push_back({"pairs_and_triples", 60000, 3000000, [trim_pool](uint64_t, vf::Rng& r) { c18_case(r); trim_pool(); }});
     S.push_back({"long_shared_prefix_keys", 8000, 400000, [trim_pool](uint64_t, vf::Rng& r) { c18_longkey_case(r); trim_pool(); }});
